@@ -45,7 +45,9 @@ FamDeep ==
       a \in {X, KV}, b \in {Y, TrStk("NOT", <<>>)}, es \in SeqsUpTo(Inner, 2)}
 
 \* F5: aliases (C12) -- each nested Stack / Condition in every form
-Forms == {"native", "alias", "walias", "ptr"}
+\* walias: alias with the README's delegating String method; xalias: alias whose own
+\* String method returns unrelated text (the native rendering must still win)
+Forms == {"native", "alias", "walias", "xalias", "ptr"}
 FamAlias ==
   {TrStk(rk, <<[TrStk(ck, <<X, [KV EXCEPT !.form = f3]>>) EXCEPT !.form = f1], [KGeS EXCEPT !.form = f2, !.ex = [KGeS.ex EXCEPT !.form = f3]]>>) :
       rk \in {"AND", "LIST"}, ck \in {"OR", "NOT"}, f1 \in Forms, f2 \in Forms, f3 \in Forms}
